@@ -277,7 +277,7 @@ CHECKS = {
         "subchecks": [
             R("TestC16ParseAgree", 1500, 8000),
             R("TestC16Mutations", 15000, 100000),
-            E("TestC16Structure"),
+            E("TestC16Structure"), E("TestC16Sequence"),
             R("TestC16ModHex", 5000, 50000, ts=4),
             E("TestC16ModHexLengths"),
             R("TestC16PEM", 3000, 20000, ts=8),
